@@ -304,6 +304,11 @@ int main(int argc, char** argv) {
       else if (!strcmp(what, "gettype")) HC_TRY(get(c, alien));
       else if (!strcmp(what, "remtype")) HC_TRY(rem(c, alien));
       else if (!strcmp(what, "memtype")) HC_TRY(mem(c, alien));
+      else if (!strcmp(what, "setrefuse")) {           /* a value of the right type that the value type's Assign refuses; key: token hc_w[3], present or not */
+        var k2 = vt_make(vt_k, (int)hc_int(3)); var bad = new_raw(Probe, $I(PROBE_REFUSED));
+        HC_TRY(set(c, k2, bad));
+        vt_free(k2); del_raw(bad);
+      }
       else { fprintf(stderr, "unknown bad op %s\n", what); return 9; }
       vt_free(key); vt_free(val); del_raw(alien);
       emit(objs, "bad", o, 0, 0, 0, 0, what, hc_exc, 0);
